@@ -36,6 +36,7 @@ static void patch_out (program_t *, short *, size_t);
 static void patch_in (program_t *, short *, size_t);
 static int str_case_cmp (char *, char *);
 static int check_times (time_t, const char *);
+static int inherited_program_newer (time_t, program_t *);
 static int locate_in (program_t *);
 static int locate_out (program_t *);
 
@@ -658,6 +659,20 @@ program_t *load_binary (const char *name) {
           inherit_file = buf;	/* freed elsewhere */
           return 0;
         }
+      /*
+       * The inherit list of this binary names only the direct parents; what they
+       * were built from (their include files, the programs they inherit in turn)
+       * must not be newer either.
+       */
+      if (inherited_program_newer (mtime, ob->prog))
+        {
+          opt_trace (TT_COMPILE|1, "out of date (a file behind inherited /%s is newer).", buf);
+          fclose (f);
+          free_string (p->name);
+          FREE (p);
+          FREE (buf);
+          return OUT_OF_DATE;
+        }
       p->inherit[i].prog = ob->prog;
     }
   opt_trace (TT_COMPILE|3, "loaded inherit names ok. num_inherited = %d.", p->num_inherited);
@@ -905,6 +920,50 @@ check_times (time_t mtime, const char *nm)
     }
   return 1;
 }				/* check_times() */
+
+/*
+ * Is anything a loaded (inherited) program was built from newer than mtime?
+ * Looks at the files named in its line number information (its source and
+ * every file it included), at its own saved binary, and recursively at the
+ * programs it inherits.
+ */
+static int
+inherited_program_newer (time_t mtime, program_t * prog)
+{
+  char bin_name[PATH_MAX];
+  char *bn = bin_name;
+  size_t len;
+  int i;
+
+  if (prog->file_info)
+    {
+      /* <size> <offset of line info> { <lines> <file id> }* ; file id = string index + 1 */
+      int end = prog->file_info[1];
+      for (i = 2; i + 1 < end; i += 2)
+        {
+          int id = prog->file_info[i + 1];
+          if (id > 0 && id <= (int) prog->num_strings
+              && check_times (mtime, prog->strings[id - 1]) == 0)
+            return 1;
+        }
+    }
+  if (prog->name && strlen (CONFIG_STR (__SAVE_BINARIES_DIR__)) + strlen (prog->name) + 2 < sizeof (bin_name))
+    {
+      sprintf (bn, "%s/%s", CONFIG_STR (__SAVE_BINARIES_DIR__), prog->name);
+      if (bn[0] == '/')
+        bn++;
+      len = strlen (bn);
+      bn[len - 1] = 'b';
+      if (check_times (mtime, bn) == 0)
+        return 1;
+    }
+  for (i = 0; i < (int) prog->num_inherited; i++)
+    {
+      if (inherited_program_newer (mtime, prog->inherit[i].prog))
+        return 1;
+    }
+  return 0;
+}
 
 /*
  * Routines to do some hacking on the program being saved/loaded.
